@@ -125,3 +125,61 @@ def run(prop, tier, seed, only=None):
             res["undischarged"].append((n, r["status"], (r.get("tail") or "")[-200:].replace("\n", " ")))
     res["solver_s"] = round(res["solver_s"], 2)
     return res
+
+
+# ---------------------------------------------------------------------------------------------
+# supplementary native grids (not solver-based; they only add detection power and replayable inputs)
+# ---------------------------------------------------------------------------------------------
+def native_grid(prop, tier, seed):
+    import engine_r
+    part = {"engine": "N (supplementary native runs of the real build on f64 under a watchdog: not a solver verdict)", "functions": [], "obligations": 0, "discharged": 0,
+            "undischarged": [], "violations": [], "unconfirmed": [], "queries": 0, "solver_s": 0.0, "states": 0, "transitions": 0, "samples": [], "nontrivial": 0,
+            "tool_errors": [], "assumptions": ["supplementary enumeration of concrete inputs; the deciding checks of this property are the solver-based engines"], "traces_validated": 0}
+    cases = []
+    if prop == "C08":
+        shapes = [(3, 1), (5, 2)] if tier == "quick" else [(2, 1), (3, 1), (4, 1), (5, 2), (7, 3)]
+        for (n, p) in shapes:
+            for val in ("nan", "inf", "ninf", "huge", "tiny", "zero"):
+                for where in ("phi", "y", "w", "alpha"):
+                    for (i, j) in ([(0, 0), (n - 1, p)] if where == "phi" else [((seed + 1) % n, 0)]):
+                        cases.append(("nonfinite", dict(n=n, p=p, val=val, where=where, i=i, j=j, weights=1 if where == "w" or (i + j) % 2 else 0)))
+    if prop == "C09":
+        for (n, p) in ([(6, 1)] if tier == "quick" else [(6, 1), (8, 2)]):
+            for persistent in (0, 1):
+                for k in range(0, 26 if tier == "quick" else 60):
+                    cases.append(("faultfit", dict(n=n, p=p, k=k, persistent=persistent)))
+            cases.append(("faultfit", dict(n=n, p=p)))
+    if not cases:
+        return None
+    h = engine_r.Harness(tag=f"grid-{prop}")
+    h.build("release")
+    seen_roles = set()
+    for (sc, cfg) in cases:
+        for profile in (("release", "dev") if tier == "thorough" else ("release",)):
+            d = h.run("f64", sc, cfg, profile=profile, timeout=15)
+            part["obligations"] += 1
+            part["states"] += 1
+            part["traces_validated"] += 1
+            bad = [("crash-or-hang", d.get("log", "")[-300:])] if d.get("crash") else [f for f in d["out"]["facts"] if not f[1]]
+            if not d.get("crash"):
+                import engine_r as er
+                bad += er.numeric_failures(d, ["C09", "C08"])
+            if not bad:
+                part["discharged"] += 1
+                if len(part["samples"]) < 3:
+                    part["samples"].append({"scenario": sc, "cfg": cfg, "facts": [f[0] for f in d["out"]["facts"]][:6]})
+                continue
+            role = f"native:{sc}:{str(bad[0][0])}:{cfg.get('where', '')}:{cfg.get('val', '')}:{cfg.get('persistent', '')}"
+            if role in seen_roles:
+                continue
+            seen_roles.add(role)
+            import evidence
+            os.makedirs(evidence.REPLAY_DIR, exist_ok=True)
+            path = os.path.join(evidence.REPLAY_DIR, f"{prop}-N-{len(part['violations'])}.json")
+            rec = {"property": prop, "engine": "R", "scenario": sc, "cfg": cfg, "inputs": {}, "obligation": str(bad[0][0]), "detail": f"{sc} {cfg} [{profile}]: {str(bad[0])[:300]}", "role": role}
+            write_json(path, rec)
+            rec["replay"] = path
+            part["violations"].append(rec)
+    part["functions"].append(f"{len(cases)} native cases ({'/'.join(sorted({c[0] for c in cases}))})")
+    part["nontrivial"] = part["discharged"]
+    return part
